@@ -5,6 +5,9 @@ package c09
 
 import (
 	"fmt"
+	goast "go/ast"
+	goparser "go/parser"
+	gotoken "go/token"
 	"regexp"
 	"strings"
 	"testing"
@@ -42,6 +45,71 @@ func firstCallOfLine(src, id, line string) bool {
 	l := lineOf(src, line)
 	i := strings.Index(l, "mk("+id+",")
 	return i >= 0 && !callBefore.MatchString(l[:i])
+}
+
+// firstCallMarks parses a Go program and returns the ids of the marks mk(<id>, ...) that are the
+// first call of their statement: the innermost statement that contains the mark (the statements
+// of a function literal are statements of their own, also when the literal is written on the line
+// of the statement that holds it) starts on the mark's line and has no call expression that starts
+// before the mark.
+func firstCallMarks(src string) map[string]bool {
+	out := map[string]bool{}
+	fset := gotoken.NewFileSet()
+	f, err := goparser.ParseFile(fset, "x.go", src, goparser.SkipObjectResolution)
+	if err != nil {
+		return out
+	}
+	var stack []goast.Node
+	goast.Inspect(f, func(n goast.Node) bool {
+		if n == nil {
+			stack = stack[:len(stack)-1]
+			return true
+		}
+		stack = append(stack, n)
+		call, ok := n.(*goast.CallExpr)
+		if !ok {
+			return true
+		}
+		id, ok := call.Fun.(*goast.Ident)
+		if !ok || id.Name != "mk" || len(call.Args) == 0 {
+			return true
+		}
+		lit, ok := call.Args[0].(*goast.BasicLit)
+		if !ok {
+			return true
+		}
+		// innermost enclosing statement (simple statements; for compound statements the mark sits in
+		// the header, and calls of the body start later anyway)
+		var stmt goast.Node
+		for i := len(stack) - 2; i >= 0; i-- {
+			if _, ok := stack[i].(goast.Stmt); ok {
+				stmt = stack[i]
+				break
+			}
+			if _, ok := stack[i].(*goast.ValueSpec); ok { // package-level var initialiser
+				stmt = stack[i]
+				break
+			}
+		}
+		if stmt == nil {
+			return true
+		}
+		// the //line comment fixes the line the statement starts on; a call on a continuation line of
+		// a statement that runs over several lines depends on the generated layout and is not part
+		// of the statement ("the line where that statement is written")
+		isFirst := fset.Position(call.Pos()).Line == fset.Position(stmt.Pos()).Line
+		goast.Inspect(stmt, func(m goast.Node) bool {
+			if c, ok := m.(*goast.CallExpr); ok && c != call && c.Pos() < call.Pos() {
+				isFirst = false
+			}
+			return isFirst
+		})
+		if isFirst {
+			out[lit.Value] = true
+		}
+		return true
+	})
+	return out
 }
 
 // callBefore matches an opening parenthesis that belongs to a call or conversion (it follows an
@@ -93,9 +161,13 @@ func evalGo(srcs []string) ([]*vk.Verdict, []stats, error) {
 		if len(xm) < n {
 			n = len(xm)
 		}
+		var first map[string]bool
 		for k := 0; k < n && vs[i] == nil; k++ {
 			a, b := rm[k], xm[k]
-			if a[1] == b[1] && !firstCallOfLine(srcs[i], a[1], a[3]) {
+			if first == nil {
+				first = firstCallMarks(srcs[i])
+			}
+			if a[1] == b[1] && !first[a[1]] {
 				// the property speaks of the FIRST call of a statement: later calls on the same source
 				// line may legitimately land on other output lines (e.g. after a function literal)
 				st[i].later++
